@@ -123,6 +123,11 @@ func VerifH_C15_AcrossReconnect() {
 		// native replay: the executor's symbolic rand.Int31n results become the counters' seeds
 		cli0.idLast = verifNondetU32("rand.Int31n") + 1
 	}
+	if cli0.idLast != 0 {
+		verifEvent("seeded") // Connect seeded the identifier counter (at random)
+	} else {
+		verifEvent("unseeded")
+	}
 	ctx, cancel := context.WithCancel(context.Background())
 	// a QoS 1 publish is interrupted on the first connection
 	var perr error
@@ -148,6 +153,11 @@ func VerifH_C15_AcrossReconnect() {
 	verifAssert(err == nil, "C15.harness_connect2")
 	if !verifSymbolic() {
 		cli1.idLast = verifNondetU32("rand.Int31n") + 1
+	}
+	if cli1.idLast != 0 {
+		verifEvent("seeded")
+	} else {
+		verifEvent("unseeded")
 	}
 	go func() { _ = re.Retry(ctx, cli1) }()
 	go func() { _ = cli1.Publish(ctx, &Message{Topic: "u", QoS: QoS1, Payload: []byte{2}}) }()
